@@ -46,6 +46,8 @@ def stmt_text(s, ind=0):
 
 def to_text(p):
     out = []
+    for u in p.get("usepulses", []):
+        out.append(f"from {u} usepulses *\n")
     for n, v in p["lets"]:
         out.append(f"let {n} {fmt_val(v)}\n")
     out.append(f"register q[{fmt_val(p['n'])}]\n")
@@ -182,7 +184,7 @@ def sem(p, overrides=None, expand_sub=False):
             cnt = 1 if s[1] is None else num(s[1], L, E)
             body = [ev(c, E) for c in s[2]]
             if expand_sub:
-                return ("seq!", [("gate", "prepare_all", ())] + body + [("gate", "measure_all", ())])
+                return ("seq", [("gate", "prepare_all", ())] + body + [("gate", "measure_all", ())])
             return ("sub", cnt, body)
         raise ValueError(k)
 
@@ -389,6 +391,8 @@ class Gen:
     def program(self):
         r = self.r
         p = {"lets": [], "n": self.n, "maps": [], "macros": [], "body": []}
+        if r.random() < 0.25:
+            p["usepulses"] = ["foo.bar"] if r.random() < 0.7 else ["foo.bar", ".rel"]
         if self.o["use_lets"]:
             p["lets"] = [("k0", r.choice([0, 1])), ("k1", r.choice([1, 2])), ("ang", r.choice([0.5, 1.25, 3.0]))]
             if r.random() < 0.3:
